@@ -109,7 +109,8 @@ CLAIMS = {
     "C23": ("must-pass-through dataflow (change_kind test before any non-false return) + application-table "
             "extraction from the twelve suppression loops",
             "the four change_kind predicates cannot answer true without testing the kind of change; every application "
-            "loop passes the kind and stores into the suppressed set that belong to the container it iterates",
+            "loop passes the kind (also when it travels through a local: reaching-enumerator dataflow) and stores into "
+            "the suppressed set that belong to the container it iterates",
             "name / regex matching of the suppression against the interface is runtime",
             "§3 R-CHGKIND; §4 C23"),
     "C02": ("table extraction from the AST (string literals, switch / if-chain enum tables) and set / inverse-table "
@@ -129,7 +130,9 @@ CLAIMS = {
     "C36": ("AST/CFG rules: return-value provenance of the writer entry points, discarded-result check and "
             "must-pass-through (flush then stream test) path exploration at every call site in abidw/abilint",
             "the writer entry points return the state of the stream; abidw and abilint never discard that result and "
-            "every path to a success exit flushes/closes the stream and then tests it",
+            "every path to a success exit flushes/closes the stream and then tests it (helpers that flush-and-test "
+            "their stream parameter are summarised from their own CFG; a std::ofstream the function owns must be "
+            "close()d, not only flushed, before the test)",
             "that libstdc++ reports a failed write(2) through the stream state after flush/close",
             "§3 R-WRITERES; §4 C36"),
     "C33": ("non-null dataflow with a nullable-producer table (reader + tools' ABIXML read paths), size-fact dataflow "
@@ -144,7 +147,8 @@ CLAIMS = {
     "C24": ("non-null dataflow over the CFG at every regex::match call (with container invariants) + must-pass-through "
             "gate rule in the suppression parser + vocabulary table (property names vs validator suffix)",
             "no null compiled regex reaches regex::match; every section reader is dominated by the validator that "
-            "rejects a section with an uncompilable *_regexp; all regex-carrying property names end in that suffix; "
+            "rejects a section with an uncompilable *_regexp; all regex-carrying property names end in that suffix (or "
+            "are in the validator's name table, if it is written that way); "
             "parameter '/regex/ specs are compiled before acceptance",
             "insertion-range arithmetic (has_data_member_inserted_*) and name matching itself are runtime",
             "§3 R-RXNULL, R-RXPRES (now R-RXVALID); §4 C24"),
@@ -158,7 +162,8 @@ CLAIMS = {
             "§3 R-RXNULL, R-NULLABLE, R-IDX, R-INASSERT; §4 C25"),
     "C32": ("lockset / typestate dataflow over the CFGs of abg-workers.cc (must/may held sets), path exploration with "
             "correlated-branch pruning, waiter/mutation table derived from the loop conditions",
-            "lock/unlock pairing on all paths, every guarded field accessed under its mutex, every cond_wait in a "
+            "lock/unlock pairing on all paths, every guarded field accessed under its mutex (a std::atomic field may be "
+            "read lock-free outside a wait predicate, never written), every cond_wait in a "
             "re-testing loop under the right mutex, every mutation that can release a waiter followed by the right "
             "signal/broadcast (no lost wake-up), tasks popped in one critical section, performed outside locks, "
             "recorded and notified exactly once under tasks_done_mutex, all workers joined",
@@ -186,9 +191,12 @@ CLAIMS = {
             "only after a null-checked full expansion of the root element",
             "that libxml2 / elfutils fail on every corruption",
             "§3 R-LOADFAIL, R-EXPAND; §4 C09"),
-    "C30": ("exit-status abstract interpretation of abipkgdiff (kill rule, field-wise accumulation, marker predicate)",
+    "C30": ("exit-status abstract interpretation of abipkgdiff (kill rule, field-wise accumulation, marker predicate) "
+            "+ aliased in/out argument rule (CFG may-analysis of the path helpers abipkgdiff calls in place)",
             "no accumulated status bit is discarded in abipkgdiff: task results and removed-binary bits are OR-ed on "
-            "every path; paths that record a removed binary return CHANGE|INCOMPATIBLE",
+            "every path; paths that record a removed binary return CHANGE|INCOMPATIBLE; the helpers that compute the "
+            "package-content map keys in place (dir_name(key, key), real_path(p, p) ...) never read their input after "
+            "writing their output",
             "per-binary agreement with abidiff and the matching of binaries are runtime",
             "§3 R-STATUS S5, R-ACCUM; §4 C30"),
     "C21": ("AST shape rule over all overriders of diff::has_changes (sibling agreement) + operand-pairing rule over "
